@@ -346,13 +346,31 @@ func oracleMaxMessageSize(s *Sim, y *Sys) {
 		return
 	}
 	frame := buf.Bytes()
+	valid := true
+	switch Pick(t, "max-shape", "well-formed", "well-formed", "padded", "garbage") {
+	case "padded":
+		// a complete message followed by filler (white space for JSON, zero bytes otherwise)
+		pad := byte(0)
+		if s.Net.Links[0].cfg.EncodingName == transport.EncodingNameJSON {
+			pad = ' '
+		}
+		frame = append(append([]byte(nil), frame...), bytes.Repeat([]byte{pad}, Pick(t, "max-pad", 1, 30, 300, 2000))...)
+		valid = false
+	case "garbage":
+		n := Pick(t, "max-garbage", 5, 65, 300, 1200)
+		frame = make([]byte, n)
+		for i := range frame {
+			frame[i] = byte(t.Choose("max-garbage-byte", 256))
+		}
+		valid = false
+	}
 	rw := &oneShot{frame: frame}
 	tr := encoding.NewTransport(&encoding.TransportConfig{Transport: rw, Encoding: enc, MaxMessageSize: encoding.Size(max)})
 	m, err := tr.Read()
 	switch {
 	case len(frame) > max && !iscperrors.Is(err, iscperrors.ErrMessageTooLarge):
 		s.Violate("C12.oversize-accepted", "", "frame of %d bytes with MaxMessageSize %d: Read returned (%T, %v), want the too-large error", len(frame), max, m, err)
-	case len(frame) <= max && err != nil:
+	case valid && len(frame) <= max && err != nil:
 		s.Violate("C12.size-gate-rejects-valid", "", "frame of %d bytes with MaxMessageSize %d rejected: %v", len(frame), max, err)
 	}
 }
